@@ -196,7 +196,8 @@ def parse (valid : Nat → Bool) : Bytes → ParseRes
 def validIn (st : DecState) (i : Nat) : Bool := (lookup st.dyn i).isSome
 
 /-- one `nextField` worth of specification: size updates are applied and skipped, the first field is
-returned. `blockStart = false` (a CONTINUATION) counts as "a field came before". -/
+returned. `blockStart = false` (a field of the block was decoded from an earlier frame: `strm.fieldSeen`)
+counts as "a field came before". -/
 def stepFuel : Nat → DecState → Bool → Nat → Bytes → DecRes
   | 0, _, _, _, _ => .err
   | _, st, _, _, [] => .ok st none []
